@@ -68,6 +68,7 @@ def family(dense=False):
     fam["ser_deep"] = nf["n"].copy()
     fam["flat_arg"] = pd.DataFrame({"z": [1.0, 2.0, 3.0]}, index=["a", "a", "d"])
     fam["series_arg"] = pd.Series([10.0, 20.0, 30.0, 40.0], index=["a", "a", "a", "d"], name="given_name")
+    fam["np_arg"] = np.arange(float(nf["n"].nest.flat_length)) + 200.0      # a caller-owned numpy array offered as flat values
     fam["lists_arg"] = pd.DataFrame({"u": pd.Series(pa.array([[1], [2, 3], [], [4]], type=pa.list_(pa.int64())), dtype=pd.ArrowDtype(pa.list_(pa.int64())),
                                                      index=labels), "keep": [0, 1, 2, 3]}, index=labels)
     return fam
@@ -95,6 +96,7 @@ def ops(tmpdir):
         "pack_flat_sorted_arg": ("pure", "flat_arg", lambda f: pack_flat(f["flat_arg"].sort_index(), name="p")),
         "pack_lists": ("pure", "lists_arg", lambda f: pack_lists(f["lists_arg"][["u"]], name="p")),
         "with_flat_field": ("pure", "ser", lambda f: f["ser"].nest.with_flat_field("w", np.arange(float(f["ser"].nest.flat_length)))),
+        "with_flat_field_arg": ("pure", "ser", lambda f: f["ser"].nest.with_flat_field("w", f["np_arg"])),
         "with_list_field": ("pure", "ser", lambda f: f["ser"].nest.with_list_field(
             "t", pa.array([[9] * k for k in f["ser"].nest.list_lengths], type=pa.list_(pa.int64())))),
         "with_filled_field": ("pure", "ser", lambda f: f["ser"].nest.with_filled_field("c", [1, 2, 3, 4])),
@@ -104,6 +106,8 @@ def ops(tmpdir):
         "concat": ("pure", "orig", lambda f: pd.concat([f["orig"].iloc[:0], f["orig"]])),
         # ---- in place: change the target (and what pandas defines as its views)
         "setfield_orig": ("inplace", "orig", lambda f: f["orig"].__setitem__("n.t", np.arange(100, 100 + f["orig"]["n"].nest.flat_length))),
+        "setfield_orig_arg": ("inplace", "orig", lambda f: f["orig"].__setitem__("n.f", f["np_arg"])),
+        "nest_setitem_ser_deep_arg": ("inplace", "ser_deep", lambda f: f["ser_deep"].nest.__setitem__("f", f["np_arg"])),
         "setfield_new_nest": ("inplace", "orig", lambda f: f["orig"].__setitem__("m.z", f["series_arg"])),
         "loc_row_orig": ("inplace", "orig", lambda f: f["orig"].loc.__setitem__(("a", "n"), None)),
         "iloc_ser_deep": ("inplace", "ser_deep", lambda f: f["ser_deep"].iloc.__setitem__([0], pack_seq([{"t": [5], "f": [5.5]}],
@@ -124,7 +128,7 @@ def ops(tmpdir):
 # ser is extracted from orig without a copy: they share the nested array OBJECT, so an element write through either shows in both;
 # a whole-column (re)assignment on a frame rebinds the frame's column only.
 MAY_SHOW = {
-    "setfield_orig": {"orig"}, "setfield_new_nest": {"orig"}, "loc_row_orig": {"orig", "ser", "cols", "rows"},
+    "setfield_orig": {"orig"}, "setfield_orig_arg": {"orig"}, "nest_setitem_ser_deep_arg": {"ser_deep"}, "setfield_new_nest": {"orig"}, "loc_row_orig": {"orig", "ser", "cols", "rows"},
     "iloc_ser_deep": {"ser_deep"}, "array_setitem_ser": {"ser", "orig", "cols", "rows"}, "nest_setitem_ser_deep": {"ser_deep"},
     "inplace_query_deep": {"deep"}, "inplace_sort_deep": {"deep"}, "inplace_dropna_rows": {"rows"}, "inplace_eval_deep": {"deep"},
     "base_assign_deep": {"deep"}, "setfield_cols": {"cols"},
@@ -145,6 +149,7 @@ def probe_isolated(res, fam):
         fam["series_arg"].iloc[0] = 999.0
         fam["orig"].iloc[0, 0] = 999.0
         fam["lists_arg"].iloc[0, 1] = 999
+        fam["np_arg"][0] = 999.0
     except Exception as e:  # noqa: BLE001
         return True, f"argument probe not applicable: {type(e).__name__}"
     if snap(res) != res_before:
@@ -202,6 +207,20 @@ def run_sequence(seq, table, dense=False):
                 problems.append(f"step {step} {name}: the write also shows in {sorted(changed - STRICT[name])}")
             if target not in changed and name not in ("inplace_dropna_rows",):
                 pass   # a no-op in this state (e.g. nothing to drop) is fine
+    # whatever ran: the caller's later in-place writes into ITS OWN argument objects must not show in any frame / series
+    # of the family (an operation that keeps the caller's memory instead of copying it)
+    args = ("flat_arg", "series_arg", "lists_arg", "np_arg")
+    before = {k: snap(v) for k, v in fam.items() if k not in args}
+    try:
+        fam["flat_arg"].iloc[0, 0] = 998.0
+        fam["series_arg"].iloc[0] = 998.0
+        fam["lists_arg"].iloc[0, 1] = 998
+        fam["np_arg"][0] = 998.0
+    except Exception:  # noqa: BLE001
+        return problems
+    shows = sorted(k for k in before if snap(fam[k]) != before[k])
+    if shows:
+        problems.append(f"after {list(seq)}: a write of the caller into its own argument objects shows in {shows}")
     return problems
 
 
@@ -250,7 +269,7 @@ OBJ = {"orig": 0, "deep": 1, "rows": 2, "cols": 3, "ser": 4, "ser_deep": 5}
 
 
 def heap_op(name):
-    table = {"setfield_orig": "HRebind 0", "setfield_new_nest": "HRebind 0", "loc_row_orig": "HWriteCell 0", "iloc_ser_deep": "HWriteCell 5",
+    table = {"setfield_orig": "HRebind 0", "setfield_orig_arg": "HRebind 0", "nest_setitem_ser_deep_arg": "HRebind 5", "setfield_new_nest": "HRebind 0", "loc_row_orig": "HWriteCell 0", "iloc_ser_deep": "HWriteCell 5",
              "array_setitem_ser": "HWriteCell 4", "nest_setitem_ser_deep": "HRebind 5", "inplace_query_deep": "HRebind 1",
              "inplace_sort_deep": "HRebind 1", "inplace_dropna_rows": "HRebind 2", "inplace_eval_deep": "HRebind 1",
              "base_assign_deep": "HRebind 1", "setfield_cols": "HRebind 3"}
